@@ -1042,6 +1042,10 @@ func vfFRRGenProgram(r *vfRand, o vfFRRGenOpts) vfFRRProgram {
 		prog.BFDProfiles = append(prog.BFDProfiles, []string{"fast", "slow"}[i])
 	}
 	peers := []string{"10.2.2.254", "10.2.2.253", "172.30.0.3", "fc00:f853:ccd:e793::5", "fc00:f853:ccd:e793::6", "@net0", "@eth1"}
+	if r.Chance(1, 6) {
+		// an IPv4 peer spelled as an IPv4-mapped IPv6 address: it is an IPv4 neighbor
+		peers = append(peers, "::ffff:10.2.2.252", "::ffff:10.2.2.252")
+	}
 	if r.Chance(1, 25) {
 		// interface names containing a dash next to a VRF whose name follows the dash
 		prog.Class = "dashed-interface"
@@ -1117,7 +1121,7 @@ func vfFRRGenProgram(r *vfRand, o vfFRRGenOpts) vfFRRProgram {
 			}
 		}
 		if r.Chance(1, 2) {
-			if s.Addr != "" && strings.Contains(s.Addr, ":") {
+			if s.Addr != "" && strings.Contains(s.Addr, ":") && !strings.HasPrefix(s.Addr, "::ffff:") {
 				s.Src = vfPick(r, []string{"fc00:f853:ccd:e793::100", "fc00:f853:ccd:e793::101"})
 			} else {
 				s.Src = vfPick(r, []string{"10.1.1.254", "10.1.1.100"})
